@@ -275,9 +275,35 @@ func r094(c *Ctx, r *R) {
 		if nameMatches(n, "metrics.Store).RemovePeerMetrics") {
 			hasRemove = true
 		}
-		if n == "builtin.delete" {
-			hasDelete = true
+	}
+	// the counter that was compared is the one deleted
+	var ctrMap, ctrKey ssa.Value
+	if bo, ok := thrIf.Cond.(*ssa.BinOp); ok {
+		if l, _ := mapLookupOf(bo.X); l != nil {
+			ctrMap, ctrKey = l.X, l.Index
 		}
+	}
+	{
+		seen := map[*ssa.BasicBlock]bool{}
+		var walk func(b *ssa.BasicBlock)
+		walk = func(b *ssa.BasicBlock) {
+			if seen[b] {
+				return
+			}
+			seen[b] = true
+			for _, i := range b.Instrs {
+				if ci, ok := i.(ssa.CallInstruction); ok && callName(ci.Common()) == "builtin.delete" {
+					a := ci.Common().Args
+					if ctrMap != nil && a[0] == ctrMap && a[1] == ctrKey {
+						hasDelete = true
+					}
+				}
+			}
+			for _, s := range b.Succs {
+				walk(s)
+			}
+		}
+		walk(over)
 	}
 	r.Check(hasRemove, "alert:forget-metric", thrIf.Pos(), "after the threshold the stale metric is removed", "after the alert threshold the stale metric is not forgotten: the peer is reported again and again")
 	r.Check(hasDelete, "alert:reset-counter", thrIf.Pos(), "after the threshold the alert counter is reset", "the alert counter is not reset when the stale metric is forgotten: a later failure of the same peer is never reported")
